@@ -6,6 +6,7 @@
 //   case <k> <kind> n=<routers> edges=<m>
 //   node n<idx> <hash> <name>   ids below are n<idx> for these, raw decimal hashes otherwise (0 = none)
 //   ev rup <i> | ev rdown <i> | ev up <i> <j> | ev dead <i> <j> | ev fetch <i> <j>
+//   ev laterace <i> <j>         the same with the real interleaving: the update STARTED while the sweep held the lock (stalled)
 //   ev late <i> <j>             the ribUpdate started for neighbour j runs only now, after the preceding `ev dead i j`
 //   ev clock <ns> | ev sync <i> <j> <s> | ev data|olddata <i> <j> <s> | ev hold <j> | ev sweep <i> <dead ns>
 //                               the sequence-number / liveness layer through the real handlers (see ProtoModel.v)
@@ -495,7 +496,7 @@ func (w *world) evDeadLateRace(i, j int) {
 	done1 := make(chan struct{})
 	go func() { w.rt[i].Vf18CheckDead(); close(done1) }()
 	synctest.Wait() // the sweep is stalled on the full queue, holding the lock, the neighbour object still intact
-	fmt.Fprintf(w.w, "ev late %s %s\n", w.id(w.hash[i]), w.id(w.hash[j]))
+	fmt.Fprintf(w.w, "ev laterace %s %s\n", w.id(w.hash[i]), w.id(w.hash[j]))
 	w.evc++
 	done2 := make(chan struct{})
 	r := w.rt[i]
@@ -1753,18 +1754,20 @@ func TestReplay(t *testing.T) {
 					w.evDead(idx(p[2]), idx(p[3]))
 				case "dead":
 					// `ev dead i j` directly followed by `ev late i j`: the sweep overtook a pending ribUpdate
-					late := false
+					late, race := false, false
 					for q := li + 1; q < len(lines); q++ {
 						f := strings.Fields(lines[q])
 						if len(f) >= 2 && f[0] == "ev" {
-							if len(f) == 4 && f[1] == "late" && f[2] == p[2] && f[3] == p[3] {
-								late = true
+							if len(f) == 4 && (f[1] == "late" || f[1] == "laterace") && f[2] == p[2] && f[3] == p[3] {
+								late, race = true, f[1] == "laterace"
 								skip = q
 							}
 							break
 						}
 					}
-					if late {
+					if race {
+						w.evDeadLateRace(idx(p[2]), idx(p[3]))
+					} else if late {
 						w.evDeadLate(idx(p[2]), idx(p[3]))
 					} else {
 						w.evDead(idx(p[2]), idx(p[3]))
